@@ -50,6 +50,13 @@ def scenarios_for(tier, triples=False):
             for f in ("ns", "c", "d"):
                 calls = [step.DeleteMeta(0, None, all_docs=True), step.DeleteMeta(0, f)]
                 out.append(("%s || from: %s" % (" || ".join(c.label for c in calls), three[0]), three[1], calls))
+            # a call that is *rejected* for its argument takes part: store_metadata of a path that does not exist, on
+            # the pid and format whose document two deleters contend for (a rejected call holds and releases nothing)
+            rejected = step.Raw("store_metadata(pid0, <missing path>, 'c')", "store_metadata(missing path)",
+                                lambda w, s: s.store_metadata(w.pids[0], "/src/no-such-file", "c"), ["ValueError"])
+            rejected.i = 0
+            calls = [step.DeleteMeta(0, "c"), rejected, step.DeleteMeta(0, "c")]
+            out.append(("%s || from: %s" % (" || ".join(c.label for c in calls), INITS[1][0]), INITS[1][1], calls))
             # unrelated documents that share nothing but directories: only the directories of (a,c) exist
             import posixpath
             needed = {posixpath.dirname(w.META[0][w.cell("c")])}
